@@ -513,11 +513,61 @@ fn limb_op(op: &str, a: &[&str]) -> Option<String> {
     })
 }
 
+// ---- hook ops: crate-internal functions reached through `crypto_bigint::verif_hooks`
+fn hook_fixed<const N: usize>(op: &str, a: &[&str]) -> Option<String> {
+    use crypto_bigint::verif_hooks as h;
+    let x = arg!(a.first().and_then(|s| uint::<N>(s)));
+    let a = &a[1..];
+    Some(match (op, a) {
+        ("shl_limb", [s]) => {
+            let (r, c) = h::uint_shl_limb(&x, arg!(dec32(s)));
+            format!("{} {}", uhex(&r), lhex(c))
+        }
+        ("shl1", []) => {
+            let (r, c) = h::uint_overflowing_shl1(&x);
+            format!("{} {}", uhex(&r), lhex(c))
+        }
+        ("shr1", []) => {
+            let (r, c) = h::uint_shr1_with_carry(&x);
+            format!("{} {}", uhex(&r), cchoice(c))
+        }
+        ("ushr1", []) => uhex(&h::uint_shr1(&x)),
+        _ => return None,
+    })
+}
+fn hook_boxed(op: &str, a: &[&str]) -> Option<String> {
+    use crypto_bigint::verif_hooks as h;
+    let n = arg!(a.first().and_then(|s| dec(s)));
+    let x = arg!(a.get(1).and_then(|s| boxed(s, n)));
+    let a = &a[2..];
+    Some(match (op, a) {
+        ("bshl_limb", [s]) => {
+            let (r, c) = h::boxed_shl_limb(&x, arg!(dec32(s)));
+            format!("{} {}", bhexlen(&r), lhex(c))
+        }
+        ("bshl1", []) => {
+            let (r, c) = h::boxed_overflowing_shl1(&x);
+            format!("{} {}", bhexlen(&r), lhex(c))
+        }
+        ("bshr1", []) => bhexlen(&h::boxed_shr1(&x)),
+        _ => return None,
+    })
+}
+
 pub fn dispatch(op: &str, a: &[&str]) -> Option<String> {
     let mut parts = op.splitn(3, '.');
     let (_, kind, name) = (parts.next()?, parts.next()?, parts.next()?);
     match kind {
         "l" => limb_op(name, a),
+        "hook" if name.starts_with('b') => hook_boxed(name, a),
+        "hook" => {
+            if a.is_empty() {
+                return Some(BAD.into());
+            }
+            let n = arg!(dec(a[0]));
+            let rest = &a[1..];
+            with_n!(n, hook_fixed, name, rest)
+        }
         "b" => boxed_op(name, a),
         "u" | "i" => {
             if a.is_empty() {
